@@ -72,7 +72,9 @@ class Deployment:
         tempfile.tempdir = self.world.tmpdir
         cfg = program["config"]
         self.record = recgen.Record(self.log)
+        self.parent_bitgens = set()
         self.rng = recgen.make(cfg.get("rng_seed", 0), self.record)
+        self.parent_bitgens.add(id(self.rng.bit_generator))
         self.decider = simpool.Decider(program.get("seed", 0), program.get("schedule"), cfg.get("sched_profile"))
         self.pools = []
         self.pool = self.make_pool(cfg.get("pool", {"kind": "sim", "size": 2}), program.get("faults"))
@@ -171,6 +173,7 @@ class Deployment:
         else:
             pool_faults = [dict(f) for f in (faults or []) if f.get("kind") in ("map", "worker", "dill")]
             p = simpool.SimPool(pspec.get("size", 2), self.decider, self.log, self.record, pool_faults)
+        p.parent_bitgens = self.parent_bitgens
         self.pools.append(p)
         return p
 
@@ -238,6 +241,8 @@ class Deployment:
         cfg = self.program["config"]
         pool = self.make_pool(op.get("pool", cfg.get("pool", {"kind": "sim", "size": 2})), self.program.get("faults"))
         rng = recgen.make(op.get("rng_seed", cfg.get("rng_seed", 0)), self.record, label="parent@%s" % op.get("id"))
+        self.parent_bitgens.add(id(rng.bit_generator))
+        self._keep = getattr(self, "_keep", []) + [rng]
         return self.make_joker(pool, rng)
 
     def run_op(self, op, joker=None):
@@ -302,6 +307,22 @@ class Deployment:
                 rec["direct"] = {"arr": arr, "tasks": [(t[0] if isinstance(t[0], tuple) else np.array(t[0]), t[1], list(t[2:])) for t in res_tasks]}
                 self.log.add("direct-batch-tasks", "", None, [[list(t[0]) if isinstance(t[0], tuple) else np.array(t[0]), t[1]] for t in res_tasks])
                 out = np.array([len(res_tasks)])
+            elif kind == "helper_mutate_data":
+                # the user updates one survey INSIDE the same container object (dict / list) between calls
+                from .world import build_data
+
+                cont = w.datasets[op.get("data", 0)]
+                new = build_data(op["new_spec"], w.libraries)
+                new_items = list(new.values()) if hasattr(new, "values") else (list(new) if isinstance(new, list) else [new])
+                k = op.get("source_idx", 0)
+                if hasattr(cont, "keys"):
+                    key = list(cont.keys())[k % len(cont)]
+                    cont[key] = new_items[k % len(new_items)]
+                elif isinstance(cont, list):
+                    cont[k % len(cont)] = new_items[k % len(new_items)]
+                else:
+                    raise ValueError("data %d is a bare RVData: nothing to mutate in place" % op.get("data", 0))
+                out = None
             elif kind == "helper_roundtrip":
                 h = self.helpers[name]
                 if op.get("kind") == "dill":
@@ -363,7 +384,8 @@ def make_observed_serial_pool(log=None, rng_record=None):
             for t in tasks:
                 kind, rows, start, rng = simpool.decode_task(t)
                 decoded.append({"kind": kind, "rows": rows, "start": start, "len": len(t),
-                                "fp": recgen.bitgen_fingerprint(rng.bit_generator) if rng is not None else None})
+                                "fp": recgen.bitgen_fingerprint(rng.bit_generator) if rng is not None else None,
+                                "is_parent": bool(rng is not None and id(rng.bit_generator) in getattr(self, "parent_bitgens", ()))})
             call = {"key": key, "op": self.op_id, "map": self.map_idx, "func": getattr(func, "__name__", "?"), "n_tasks": len(tasks),
                     "tasks": decoded, "decision": {"transport": "serialpool", "chunks": [1] * len(tasks), "order": list(range(len(tasks))), "workers": [0] * len(tasks), "lazy": True},
                     "executed": list(range(len(tasks)))}
